@@ -39,11 +39,15 @@ class EFLRSetsDict(defaultdict):
         if eflr_set.set_name in self[eflr_set.__class__]:
             return False
         else:
-            if eflr_set.n_items:
-                # the set is new here, but already has items: it has been filled through another structure,
-                # i.e. it belongs to another logical file; logical files cannot share their sets
-                raise RuntimeError(f"{eflr_set.__class__.__name__} with set name {repr(eflr_set.set_name)} is already "
-                                   f"used in another logical file; please specify a different set_name")
+            owner = getattr(eflr_set, 'registered_in', None)  # the structure (of a logical file) the set belongs to
+            if owner is not None and owner is not self:
+                if eflr_set.n_items:
+                    # the set is new here, but belongs to another logical file; logical files cannot share their sets
+                    raise RuntimeError(f"{eflr_set.__class__.__name__} with set name {repr(eflr_set.set_name)} is "
+                                       f"already used in another logical file; please specify a different set_name")
+                # a set without items is a leftover of a failed attempt to add an item there; it is taken over
+                del owner[eflr_set.__class__][eflr_set.set_name]
+            eflr_set.registered_in = self
             self[eflr_set.__class__][eflr_set.set_name] = eflr_set
             return True
 
